@@ -469,6 +469,11 @@ def check_c04(tier):
     replayed += drive(meta_chain, build, judge, only=replay_filter())
     replayed += drive_rand(tier, build, judge, V)
     if not os.environ.get("VERIF_REPLAY"):
+        import diskchecks
+        n_imp = diskchecks.c04_own_imports(V, tier)
+        replayed += n_imp
+        V.notes["own_import_cases"] = n_imp
+    if not os.environ.get("VERIF_REPLAY"):
         import binlayouts
         nb, _ = binlayouts.run(V, tier, {"c04"})
         replayed += nb
